@@ -15,7 +15,7 @@
  */
 
 use std::{cmp, thread};
-use std::collections::HashMap;
+use std::collections::{HashMap, HashSet};
 use std::fs::{self, canonicalize, create_dir_all, read_link, File, Metadata};
 use std::io::ErrorKind;
 use std::os::unix::fs::MetadataExt;
@@ -30,7 +30,7 @@ use libfs::{
 use log::{debug, error, info, warn};
 use walkdir::WalkDir;
 
-use crate::backup::{get_backup_path, needs_backup};
+use crate::backup::{backup_stem, get_backup_path, needs_backup};
 use crate::config::{Backup, Config, Reflink};
 use crate::errors::{Result, XcpError};
 use crate::feedback::{StatusUpdate, StatusUpdater};
@@ -229,6 +229,11 @@ pub fn tree_walker(
     let mut produced: HashMap<PathBuf, PathBuf> = HashMap::new();
     // Existing destination files this run writes into, by identity.
     let mut written: HashMap<(u64, u64), PathBuf> = HashMap::new();
+    // With backups: existing entries this run replaces with a file,
+    // and the paths that destinations named `<name>.~N~` would be
+    // backups of.
+    let mut replaced: HashSet<PathBuf> = HashSet::new();
+    let mut backup_named: HashSet<PathBuf> = HashSet::new();
 
     for source in sources {
         let sourcedir = source
@@ -300,6 +305,29 @@ pub fn tree_walker(
                             XcpError::DestinationExists(msg, target)))?;
                         return Err(XcpError::EarlyShutdown(msg).into());
                     }
+                }
+            }
+
+            // With backups, the old version of a file this run
+            // replaces is moved to `<name>.~N~`. Another source of
+            // the same run that maps onto such a name and the backup
+            // would overwrite one another, whichever comes first.
+            if config.backup != Backup::None && !meta.is_dir() {
+                let replaces = meta.is_file() && fs::metadata(&target).is_ok_and(|m| !m.is_dir());
+                let stem = backup_stem(&target);
+                if (replaces && backup_named.contains(&target))
+                    || stem.as_ref().is_some_and(|s| replaced.contains(s))
+                {
+                    let msg = "Will not copy both a file to be backed up and something named like its backup.";
+                    stats.send(StatusUpdate::Error(
+                        XcpError::DestinationExists(msg, target)))?;
+                    return Err(XcpError::EarlyShutdown(msg).into());
+                }
+                if replaces {
+                    replaced.insert(target.clone());
+                }
+                if let Some(stem) = stem {
+                    backup_named.insert(stem);
                 }
             }
 
